@@ -249,9 +249,10 @@ class Ctx:
         self.exhaustive = None
         self.extra_cov = {}
         self.budget_s = None
-        kf = json.loads((VERIF / "known_findings.json").read_text())
-        self.open_findings = [f for f in kf.get("open", []) if f["property"] == prop]
-        self.fixed_findings = [f for f in kf.get("fixed", []) if f["property"] == prop]
+        ff = VERIF / "findings" / f"{prop}.json"
+        kf = json.loads(ff.read_text()) if ff.exists() else {}
+        self.open_findings = kf.get("open", [])
+        self.fixed_findings = kf.get("fixed", [])
 
     # -- budget --------------------------------------------------------------------------------
     def time_left(self) -> float:
